@@ -168,6 +168,17 @@ type Stream struct {
 type ExitPanic struct{ Code int }
 type KillPanic struct{ Step int }
 
+// StepLimitPanic ends a process that has made more I/O calls than any
+// terminating jd run can make: a deterministic verdict of non-termination for
+// loops that do I/O (a loop that only computes is left to the wall-clock
+// watchdog of the worker).
+type StepLimitPanic struct{ Steps int }
+
+// MaxSteps bounds the I/O steps of one simulated process. The largest honest
+// runs (an 80 KB file read byte by byte, an 80 KB result written in 8-byte
+// sectors) stay below a tenth of it.
+const MaxSteps = 1 << 20
+
 type Proc struct {
 	Bin    string
 	Argv   []string // Argv[0] is the program name
@@ -192,6 +203,7 @@ type Proc struct {
 	Exited  bool
 	Code    int
 	Killed  bool
+	Runaway bool   // ended by the step limit: it would never have ended by itself
 	Crash   string // non-empty: panic value
 	CrashAt string // first jd frame of the panic stack
 	Stack   string
@@ -222,6 +234,9 @@ func OnArgs(f func([]string)) { argsSetters = append(argsSetters, f) }
 
 func (p *Proc) step(kind, arg string) (rec *StepRec, fault *Fault) {
 	n := len(p.Steps)
+	if n >= MaxSteps {
+		panic(StepLimitPanic{n})
+	}
 	p.Clock++
 	p.Steps = append(p.Steps, StepRec{N: n, Kind: kind, Arg: arg})
 	rec = &p.Steps[n]
@@ -278,6 +293,8 @@ func Run(p *Proc, flagSet string, mainFn func()) {
 			p.Exited, p.Code = true, v.Code
 		case KillPanic:
 			p.Killed, p.Code = true, 137
+		case StepLimitPanic:
+			p.Runaway, p.Code = true, 137
 		default:
 			p.Crash = fmt.Sprint(r)
 			p.Stack = string(debug.Stack())
